@@ -211,7 +211,7 @@ PROPS['C01'] = {
 
 PROPS['C02'] = {
     'level': 'other',
-    'units': ['C02/band', 'C02/sparse', 'C19/lcskpp', 'C19/sdpkpp', 'C01/pairwise'],
+    'units': ['C02/band', 'C02/sparse', 'C19/lcskpp', 'C19/sdpkpp', 'C19/kmers', 'C01/pairwise'],
     'kani': [],
     'oracle': 'C02',
     'decided': ['Band::new (empty band of the right shape), add_entry (the band grows, stays inside the matrix, and contains every cell within distance w of the position), add_gap (index-safe, grows; u64 interpolation cannot overflow for any u32 corners - defect D8 fixed), add_kmer (index-safe for every k-mer inside the matrix, grows, stays inside the matrix, contains the k diagonal cells of the k-mer), set_boundaries (index-, underflow- and overflow-safe in all start/end branches; grows), full_matrix (covers every cell), num_cells (exactly the number of banded cells, no overflow below 2^31 rows/cols)',
@@ -220,8 +220,9 @@ PROPS['C02'] = {
                 'sparse::sdpkpp_union_lcskpp_path: the union of the LCSk++ chain and the SDP chain is again a backbone (so the band builder precondition holds for the union entry point), given the contracts of lcskpp and sdpkpp proved in units C19/lcskpp and C19/sdpkpp',
                 'sparse::lcskpp and sparse::sdpkpp (units shared with C19): the returned path is a non-empty chain of valid indices in which every k-mer continues its predecessor or starts at or after its end in both coordinates; the traceback terminates; no index or u32 overflow failure under the stated bounds',
                 'Traceback::{with_capacity, resize, init, set, get} and TracebackCell (unit shared with C01): after init every cell is start-marked, independent of the previous alignment (reuse history)'],
+    'decided_extra': ['the k-mer backbone computed internally or from a prehashed sequence (unit C19/kmers shared): find_kmer_matches* return exactly the sorted set of equal k-mer position pairs; lcskpp (unit C19/lcskpp shared) returns a chain of maximum LCSk++ score'],
     'undecided': ['soundness/exactness of the banded DP (compute_alignment), its MAX_CELLS guard, termination of the post-traceback completion, the Aligner::custom_with_* / global / semiglobal / local wrappers',
-                  'optimality of the chains (score maximal), find_kmer_matches*, expand_kmer_matches'],
+                  'expand_kmer_matches (mismatch expansion), optimality of the gap-penalised sdpkpp chain'],
     'trusted': ['cmp::{min,max}, Ord::cmp std specs', 'derived Clone of Range (field-wise)', '[T]::binary_search (weak: Ok(i) only at an equal element) and Result::unwrap_or std specs', 'lcskpp / sdpkpp stubs in C02/band and C02/sparse restate the contracts proved in C19/lcskpp and C19/sdpkpp', 'as C01 for the shared unit'],
     'level_text': 'Verus proves the band geometry layer of the banded aligner (shape, growth, coverage of the whole k-mer backbone, index and overflow safety of all band builders, exact cell count), the union-path builder and the traceback matrix reset; the banded dynamic program itself is not decided by contracts (bounded stand-in only).',
     'level_note': 'Level other (partial): band construction + traceback reset. Trusted: std specs listed in evidence.',
